@@ -43,9 +43,10 @@ const (
 	iNonlocal
 	iDel
 	iChild
-	iImport // bind the name by an import statement: from vh import K7 as <name>
-	iLocals // log the one-letter names locals() shows (statement scopes only)
-	iRecall // call again a function defined earlier in an enclosing scope
+	iImport    // bind the name by an import statement: from vh import K7 as <name>
+	iLocals    // log the one-letter names locals() shows (statement scopes only)
+	iRecall    // call again a function defined earlier in an enclosing scope
+	iLocalsSet // locals()['<name>'] = <id>: binds in a module or class namespace, changes nothing in a function
 )
 
 type sitem struct {
@@ -172,6 +173,9 @@ func (r *c03r) body(ind int, s *sscope) {
 			r.line(ind, fmt.Sprintf("vh.log((%d, sorted([k for k in locals() if len(k) == 1])))", it.id))
 		case iRecall:
 			r.line(ind, fmt.Sprintf("f%d()", it.ref.id))
+		case iLocalsSet:
+			it.id = r.id()
+			r.line(ind, fmt.Sprintf("locals()['%s'] = %d", it.name, it.id))
 		case iChild:
 			c := it.child
 			switch c.kind {
@@ -427,7 +431,11 @@ func (in *c03interp) load(f *c03frame, name string) (string, error) {
 			}
 			return get(in.globals[name])
 		}
-		// free in the class body: enclosing function's cell, else global
+		// free in the class body: the class namespace first (it can only have got there
+		// dynamically), then the enclosing function's cell, else global
+		if c := f.vars[name]; c != nil && c.bound {
+			return c.val, nil
+		}
 		if c, ok := f.enclosingCell(name); ok {
 			return get(c)
 		}
@@ -603,6 +611,14 @@ func (in *c03interp) run(f *c03frame) error {
 			}
 		case iLocals:
 			in.log = append(in.log, fmt.Sprintf("(%d,[%s])", it.id, strings.Join(in.localsOf(f), ",")))
+		case iLocalsSet:
+			switch s.kind {
+			case scModule:
+				in.globals[it.name] = &cellv{val: itoa(it.id), bound: true}
+			case scClass:
+				f.vars[it.name] = &cellv{val: itoa(it.id), bound: true}
+			}
+			// in a function locals() is a snapshot: storing into it binds nothing
 		case iRecall:
 			for p := f; p != nil; p = p.parent {
 				if p.scope == it.ref.parent {
@@ -1004,7 +1020,7 @@ func c03Snapshots(quick bool, visit func(mod *sscope, size int)) {
 		k    ikind
 		what int // iRecall: 0 rebind, 1 delete
 	}
-	alphabet := []step{{iUse, 0}, {iLocals, 0}, {iRecall, 0}, {iRecall, 1}, {iBind, 0}, {iDel, 0}}
+	alphabet := []step{{iUse, 0}, {iLocals, 0}, {iRecall, 0}, {iRecall, 1}, {iBind, 0}, {iDel, 0}, {iLocalsSet, 0}}
 	maxLen := 4
 	if quick {
 		maxLen = 3
